@@ -1,1 +1,39 @@
-// harness bodies for h2 src/frame/reset.rs (compiled in-crate as `verif_h`, feature "verif")
+// harness bodies for h2 src/frame/reset.rs
+use super::*;
+use crate::frame::head::verif_h::ref_parse_head;
+
+pub fn c12_rt_reset() {
+    let flags: u8 = kani::any();
+    let sid: u32 = kani::any();
+    kani::assume(sid <= 0x7fff_ffff);
+    let bytes: [u8; 6] = kani::any();
+    let n: usize = kani::any();
+    kani::assume(n <= 6);
+    let head = Head::new(Kind::Reset, flags, StreamId::from(sid));
+    let r = Reset::load(head, &bytes[..n]);
+    match &r {
+        Ok(p) => {
+            assert!(n == 4, "RST_STREAM with length != 4 accepted");
+            let code = u32::from_be_bytes([bytes[0], bytes[1], bytes[2], bytes[3]]);
+            assert!(u32::from(p.reason()) == code, "error code (all 2^32 values) preserved");
+            assert!(u32::from(p.stream_id()) == sid);
+            let mut out = [0u8; 13];
+            let mut dst = &mut out[..];
+            p.encode(&mut dst);
+            assert!(dst.len() == 0);
+            let mut hb = [0u8; 9];
+            hb.copy_from_slice(&out[..9]);
+            let (l, t, f, r, s) = ref_parse_head(&hb);
+            assert!(l == 4 && t == 3 && f == 0 && !r && s == sid, "RST_STREAM head on the wire");
+            assert!(out[9] == bytes[0] && out[10] == bytes[1] && out[11] == bytes[2] && out[12] == bytes[3]);
+            let q = Reset::load(Head::parse(&out[..9]), &out[9..]).unwrap();
+            assert!(q == *p, "RST_STREAM round trip");
+        }
+        Err(e) => {
+            assert!(n != 4, "legal RST_STREAM rejected");
+            assert!(*e == Error::InvalidPayloadLength);
+        }
+    }
+    kani::cover!(r.is_ok(), "ok");
+    kani::cover!(true, "end");
+}
